@@ -139,3 +139,40 @@ def first_offending(g, toks):
     is_sentence, viable = earley_prefix(g, toks)
     # viable = longest k such that toks[:k] is a viable prefix  => offending token index = viable
     return viable, is_sentence
+
+
+import re as _re
+
+# sentences of the three Layout rules of tools/gram.py, recognised independently of rustemo
+LAYOUT_RE = {"ws": _re.compile(r"\s+\Z"), "comments": _re.compile(r"(?:\s+|//[^\n]*)*\Z")}
+
+
+def nested_ok(s):
+    """loose check for the nested-comment Layout: whitespace, // line comments, balanced /* */ blocks"""
+    i, depth = 0, 0
+    while i < len(s):
+        if s.startswith("/*", i):
+            depth += 1
+            i += 2
+        elif s.startswith("*/", i) and depth > 0:
+            depth -= 1
+            i += 2
+        elif depth > 0:
+            i += 1
+        elif s[i].isspace():
+            i += 1
+        elif s.startswith("//", i):
+            j = s.find("\n", i)
+            i = len(s) if j < 0 else j
+        else:
+            return False
+    return depth == 0
+
+
+def layout_sentence(kind, s):
+    """is `s` (possibly empty) a concatenation of sentences of the Layout rule of that kind"""
+    if s == "":
+        return True
+    if kind == "nested":
+        return nested_ok(s)
+    return bool(LAYOUT_RE[kind].match(s))
